@@ -11,6 +11,7 @@ checks = {
  "C11": ("io-sim", "4 (C11)", "deterministic simulation: histories of write/append/append-or-write on one path with row producers and reader goroutines under the seeded controller, fragmenting readers; model-file oracle after every operation, bit-exact"),
  "C19": ("io-sim", "4 (C19)", "deterministic simulation with fault injection: documents with drawn byte-level faults delivered in drawn fragments with read errors at any offset, scripted HTTP statuses / transport errors / body errors, unreadable files; captured panics, exact census, independent reference decode of the well-formed prefix"),
  "C12": ("sync-sim", "4 (C12)", "deterministic simulation with fault injection: Sync.Run worker pool, simulated clock for Delay, per-asset source-read and target-append failures, three consecutive runs (faulty, clean, clean) over in-memory / file-system / SQL targets under seeded schedules; reference sync model over repository contents, error reporting, idempotence, bounded completion in steps and simulated seconds; (race clause: Go race detector on free-running runs)"),
+ "C13": ("backtest-sim", "4 (C13)", "deterministic simulation: Backtest.Run worker pool (1..16) with simulated time.Now, PRNG-ordered repository listing, empty/missing/window-cut assets, three report implementations under seeded schedules; recorded protocol history, direct evaluation of every pair, parsed HTML rankings; (race clause: Go race detector on free-running runs)"),
  "C14": ("pipeline-sim", "4 (C14)", "deterministic simulation: the real template renders the report as a lock-step single-task consumer of all column channels under seeded schedules; closed-channel probes on column reads, reflection drain of the column channels after the last row, exact census, rendered rows compared with the strategy's own Compute/Outcome"),
  "C16": ("pipeline-sim", "4 (C16)", "deterministic simulation: seeded schedules, independently placed ends of the input streams, capacities; exact slice-model oracle plus exact census (longer inputs consumed, outputs closed, no task left)"),
 }
@@ -19,7 +20,6 @@ na = {
  "C06": "pure function of the OHLCV values (decision rule on documented fields); nothing a simulator controls can change it",
  "C07": "pure transducers over action words and closing prices; their liveness with real sub-strategies is covered by C03/C05",
  "C08": "sequential state machine over two value sequences; nothing concurrent, timed or faulty decides it",
- "C13": "not claimed yet in this revision (check under construction)",
  "C15": "range/ordering of indicator values is a pure function of the inputs",
  "C17": "Ring and Bst are single-threaded in-memory data structures without I/O; an operation sequence is an input, there is no interleaving or fault to inject",
  "C18": "scale covariance is a relation between two runs on related inputs; pure function of inputs",
@@ -40,6 +40,8 @@ m = {
    "kind_free_text": "same controller; simulated byte sources/sinks (fragmenting and failing readers/writers), simulated HTTP transport and SQL driver, real files in a per-run directory"},
   {"name": "sync-sim", "path": "/verif/harness (c12.go)", "serves_properties": ["C12"],
    "kind_free_text": "same controller plus discrete-event clock; FaultRepo wrappers inject per-asset failures; worker interleavings and timer firings are scheduling decisions"},
+  {"name": "backtest-sim", "path": "/verif/harness (c13.go)", "serves_properties": ["C13"],
+   "kind_free_text": "same controller; recording report stub, real DataReport/HTMLReport writing into a per-run directory, simulated now"},
   {"name": "pipeline-sim", "path": "/verif/simrt + /verif/siminstr + /verif/harness", "serves_properties": sorted(k for k in checks if checks[k][0]=="pipeline-sim"),
    "kind_free_text": "deterministic simulation: real goroutines and channels of the instrumented library, one task released at a time by a seeded controller at testing/synctest quiescence; harness-owned producers, consumers, stream ends and faults"},
  ],
